@@ -157,7 +157,7 @@ def position_script(pos, tree):
 
 
 def main():
-    chk = Check('C02', extra_modules=['Bardolph.Props.C02Climb', 'Bardolph.Proofs.Climb'])
+    chk = Check('C02', extra_modules=['Bardolph.Props.C02Climb', 'Bardolph.Proofs.Climb', 'Bardolph.Proofs.VmSteps'])
     chk.lean_phase(sections={'ExprTables'})
     rng = chk.rng
     stats = {'expressions': 0, 'undefined_skipped': 0, 'by_position': {}, 'depths': {},
